@@ -12,6 +12,12 @@ if os.path.exists(dt):
     out.append("**Determinism self-test** (`./check selftest determinism`, 2 000 seeds per property and tier, 1 vs 16 vs 5 processes): %d of %d property/tier combinations identical line by line.\n" % (ok, len(lines)))
 # ---- own sensitivity suite
 rp = os.path.join(V, "sensitivity", "results.json")
+parts = sorted(glob.glob(os.path.join(V, "sensitivity", "results-part-*.json")))
+if parts:
+    res = []
+    for pth in parts:
+        res += json.load(open(pth))
+    json.dump(res, open(rp, "w"), indent=1)
 if os.path.exists(rp):
     res = json.load(open(rp))
     mut = [r for r in res if r["prop"] != "none"]
